@@ -143,6 +143,24 @@ example :
     excluded [parseRule [45, 32, 100, 47]] [100] true = true := by
   refine ⟨by simp [listWalk, excluded, parseRule, ruleMatches, base, Delete.joined, dropSuffixSlash, isWildByte], by decide, by decide, by decide, by decide⟩
 
+/-- **a pattern with a slash names the end of the path, however the source was spelt (D53)**: `sub/f` leaves out `sub/f`
+(source given as `SRC/`) and `src/sub/f` (source given as `SRC`) alike; before the repair the pattern was compared with
+the whole name and the second spelling transferred the file without a word. -/
+theorem slash_pattern_matches_tail (r : Rule) (pre : Str) (isDir : Bool) (hs : r.pattern.contains 47 = true)
+    (hd : r.directory = false ∨ isDir = true) :
+    ruleMatches r r.pattern isDir = true ∧ ruleMatches r (pre ++ 47 :: r.pattern) isDir = true := by
+  have hdir : (r.directory && !isDir) = false := by rcases hd with h | h <;> simp [h]
+  unfold ruleMatches
+  simp only [hdir, Bool.false_eq_true, if_false, hs, if_true]
+  refine ⟨by simp, ?_⟩
+  have : (47 :: r.pattern).isSuffixOf (pre ++ 47 :: r.pattern) = true := by
+    rw [List.isSuffixOf_iff_suffix]; exact List.suffix_append pre _
+  simp [this]
+
+/-- … but not in the middle of a component: `ub/f` does not name `src/sub/f` -/
+example : ruleMatches (parseRule [45, 32, 117, 98, 47, 102]) [115, 114, 99, 47, 115, 117, 98, 47, 102] false = false ∧
+    ruleMatches (parseRule [45, 32, 115, 117, 98, 47, 102]) [115, 114, 99, 47, 115, 117, 98, 47, 102] false = true := by decide
+
 /-! ## `--filter=RULE` on the command line (D49)
 
 The rule text of `--filter` travels to the sender unchanged (`Gen.OptTable`: the clause of `OPT_FILTER`). The sender reads
